@@ -204,6 +204,10 @@ def r2_abs_fresh(ck, F):
 
 
 # ---------------------------------------------------------------------------------------
+def _post_all(b, t, c):
+    return _postdominates_all_exits(b, t, c)
+
+
 def mutated_fields(F, adt):
     """fields of `adt` that any non-derived body stores to or borrows mutably: {field: [(body, site)]}"""
     out = {}
@@ -239,8 +243,7 @@ def stores_none_to(b, adt, field):
     return None
 
 
-def r3_reset(ck, F):
-    R = "C03-R3"
+def r3_reset(ck, F, R="C03-R3"):
     rc, ibc, bc = A("rc_struct"), A("ibc_struct"), A("block_cursor")
     reset = F.body(A("rc_prefix") + "reset")
     ireset = F.body(A("ibc_prefix") + "reset")
@@ -267,6 +270,22 @@ def r3_reset(ck, F):
         b = F.body(fn)
         written = {f for f, lst in mut_bc.items() if any(bb.path == b.path and st for bb, s, st in lst)}
         ck.ob(R, f"absolute-block-move-rewrites-state/{fn.split('::')[-1]}", fields <= written, f"{fn.split('::')[-1]} assigns {sorted(written)}; BlockCursor's positional state is {sorted(fields)}", b)
+    # (a) whenever the position is (re)written, every other positional field is written with it
+    others = sorted(fields - {"current_offset"})
+    for b_ in F.user_bodies():
+        if not b_.path.startswith("block::BlockCursor"):
+            continue
+        pos = [s for bb, s, st in mut_bc.get("current_offset", []) if bb.path == b_.path and st]
+        for s in pos:
+            for f in others:
+                fs = [x for bb, x, st in mut_bc.get(f, []) if bb.path == b_.path and st]
+                okp = any(b_.dominates(x, s) or _post_all(b_, x, s) for x in fs)
+                ck.ob(R, f"position-written-without/{f}/{b_.path.split('::')[-1]}", okp, f"{b_.path.split('::')[-1]} assigns current_offset at {b_.loc(s)} without also assigning `{f}` on that path — the two pieces of positional state can disagree", b_, s)
+    # (b) replacing the block under a cursor must reset its position (today the block is never replaced)
+    for bb, s, st in mut_bc.get("block", []):
+        resets = [x for b2, x, st2 in mut_bc.get("current_offset", []) if b2.path == bb.path and st2]
+        okb = any(bb.dominates(x, s) or _post_all(bb, x, s) for x in resets)
+        ck.ob(R, f"block-replaced-without-position-reset/{bb.path.split('::')[-1]}", okb, f"{bb.path.split('::')[-1]} mutates the cursor's block at {bb.loc(s)} but keeps current_offset: the offset then indexes into a different block", bb, s)
     ge = F.body(A("bc_ge"))
     ck.ob(R, "ge-delegates-to-le", len(calls(ge, A("bc_le"))) == 1 and all(ge.dominates(calls(ge, A("bc_le"))[0][0], Site(r, None)) for r in ge.return_blocks()), "BlockCursor's >=-seek starts with the <=-seek (which rewrites the state) on every path", ge)
     # fields of the cursor types: a new one shows up here
